@@ -1,5 +1,6 @@
 import Toodee.Spec.Cells
 import Toodee.Impl.Translate
+import Toodee.Proofs.TranslateLemmas
 /-
   C15 — Translate and flip are the stated bijections on cell positions.
 
@@ -20,21 +21,50 @@ theorem C15_maps_bijective (C R mc mr : Nat) :
     (∀ g ∈ [translateG C R mc mr, flipRowsG R, flipColsG C],
       (∀ c r, c < C → r < R → (g (c, r)).1 < C ∧ (g (c, r)).2 < R) ∧
       (∀ c r c' r', c < C → r < R → c' < C → r' < R → g (c, r) = g (c', r') → (c, r) = (c', r'))) := by
-  sorry
+  intro g hg
+  simp only [List.mem_cons, List.not_mem_nil, or_false] at hg
+  rcases hg with rfl | rfl | rfl
+  · refine ⟨fun c r hc hr => ⟨Nat.mod_lt _ (by omega), Nat.mod_lt _ (by omega)⟩, ?_⟩
+    intro c r c' r' hc hr hc' hr' he
+    simp only [translateG, Prod.mk.injEq] at he
+    rw [tr_add_mod_inj hc hc' he.1, tr_add_mod_inj hr hr' he.2]
+  · refine ⟨fun c r hc hr => ⟨hc, by simp only [flipRowsG]; omega⟩, ?_⟩
+    intro c r c' r' hc hr hc' hr' he
+    simp only [flipRowsG, Prod.mk.injEq] at he
+    simp only [Prod.mk.injEq]; omega
+  · refine ⟨fun c r hc hr => ⟨by simp only [flipColsG]; omega, hr⟩, ?_⟩
+    intro c r c' r' hc hr hc' hr' he
+    simp only [flipColsG, Prod.mk.injEq] at he
+    simp only [Prod.mk.injEq]; omega
 
 theorem C15_flip_rows (m : Mode) (v : VW) (buf : List α) (h : v.Inv buf.length) (a : Acc) (ha : a.Of v buf.length) :
     a.flipRows m buf = .ok (gather buf (v.mapCells (flipRowsG v.numRows))) := by
-  sorry
+  unfold Acc.flipRows
+  refine flipRowsLoop_spec m buf h _ 0 v.numRows a.rows buf ha.wf ?_ (by omega)
+    (by have := ha.collect_rows; have := ha.wf; have := tr_wf_le_len ha.wf; omega) ?_
+  · rw [ha.abs, List.range_eq_range']; rfl
+  · exact (gather_eq_self buf _ (fun p _ => VW.mapCells_eq_self _
+      (fun c r _ hr => by simp only [flipPrefG]; rw [if_neg (by omega)]) p)).symm
 
 theorem C15_flip_cols (v : VW) (buf : List α) (h : v.Inv buf.length) (a : Acc) (ha : a.Of v buf.length) :
     a.flipCols buf = .ok (gather buf (v.mapCells (flipColsG v.numCols))) := by
-  sorry
+  unfold Acc.flipCols
+  rw [ha.collect_rows]
+  simp only [ok_bind, pure_eq]
+  congr 1
+  rw [foldl_rows buf h (fun c => v.numCols - 1 - c) (fun c hc => by omega) _
+    (fun cur r hl hr => gather_congr cur _ _ (fun p _ => revMap_eq_mapCells (hl ▸ h) hr p)) v.numRows (Nat.le_refl _)]
+  exact gather_congr buf _ _ (fun p _ => VW.mapCells_congr _ _ (fun c r _ hr => by simp [prefColG, flipColsG, hr]) p)
 
 /-- a `mid` beyond the size panics (before anything is touched) -/
 theorem C15_translate_reject (m : Mode) (a : Acc) (getRowMut : Nat → Res Win) (buf : List α) (mid : Nat × Nat)
     (hbad : ¬ (mid.1 ≤ a.numCols ∧ mid.2 ≤ a.numRows)) :
     a.translateWithWrap m getRowMut buf mid = .error .panic := by
-  sorry
+  unfold Acc.translateWithWrap
+  by_cases h1 : mid.1 ≤ a.numCols
+  · have h2 : ¬ mid.2 ≤ a.numRows := fun h2 => hbad ⟨h1, h2⟩
+    simp [h1, h2]
+  · simp [h1]
 
 /-- the column-only fast path (`row_mid == 0` after normalisation) -/
 theorem C15_translate_cols_only (m : Mode) (v : VW) (buf : List α) (h : v.Inv buf.length) (a : Acc)
@@ -42,7 +72,50 @@ theorem C15_translate_cols_only (m : Mode) (v : VW) (buf : List α) (h : v.Inv b
     (hm : mid.1 ≤ v.numCols) (hr : mid.2 = 0 ∨ mid.2 = v.numRows) :
     a.translateWithWrap m getRowMut buf mid =
       .ok (gather buf (v.mapCells (translateG v.numCols v.numRows mid.1 mid.2))) := by
-  sorry
+  have hm2 : mid.2 ≤ v.numRows := by rcases hr with h | h <;> omega
+  have hrow : (if mid.2 = v.numRows then 0 else mid.2) = 0 := by
+    rcases hr with h | h
+    · rw [h]; split <;> rfl
+    · rw [if_pos h]
+  -- the target cell map only rotates inside rows
+  have htgt : ∀ c r, c < v.numCols → r < v.numRows →
+      translateG v.numCols v.numRows mid.1 mid.2 (c, r) =
+        ((c + (if mid.1 = v.numCols then 0 else mid.1)) % v.numCols, r) := by
+    intro c r _ hr'
+    simp only [translateG, Prod.mk.injEq]
+    constructor
+    · split
+      · rename_i h1; rw [h1, Nat.add_mod_right, Nat.add_zero]
+      · rfl
+    · rcases hr with h | h
+      · rw [h, Nat.add_zero, Nat.mod_eq_of_lt hr']
+      · rw [h, Nat.add_mod_right, Nat.mod_eq_of_lt hr']
+  unfold Acc.translateWithWrap
+  simp only [ha.cols, ha.rows, hm, hm2, hrow, not_true_eq_false, if_false, if_true]
+  by_cases hc0 : (if mid.1 = v.numCols then 0 else mid.1) = 0
+  · simp only [hc0, ne_eq, not_true_eq_false, if_false, pure_eq]
+    congr 1
+    refine (gather_eq_self buf _ (fun p _ => VW.mapCells_eq_self _ (fun c r hc hr' => ?_) p)).symm
+    rw [htgt c r hc hr', hc0, Nat.add_zero, Nat.mod_eq_of_lt hc]
+  · simp only [hc0, ne_eq, not_false_eq_true, if_true]
+    rw [ha.collect_rows]
+    simp only [ok_bind]
+    have hcm : (if mid.1 = v.numCols then 0 else mid.1) ≤ v.numCols := by split <;> omega
+    have hC : 0 < v.numCols := by
+      rcases Nat.eq_zero_or_pos v.numCols with h0 | h0
+      · exfalso; apply hc0; split <;> omega
+      · exact h0
+    rw [foldlM_rows buf h (fun c => (c + (if mid.1 = v.numCols then 0 else mid.1)) % v.numCols)
+      (fun c _ => Nat.mod_lt _ hC) _ ?_ v.numRows (Nat.le_refl _)]
+    · congr 1
+      exact gather_congr buf _ _ (fun p _ => VW.mapCells_congr _ _
+        (fun c r hc hr' => by rw [htgt c r hc hr']; simp [prefColG, hr']) p)
+    · intro cur r hl hr'
+      unfold rotateLeftWin
+      rw [if_pos (by simpa [VW.rowWin] using hcm)]
+      simp only [pure_eq]
+      congr 1
+      exact gather_congr cur _ _ (fun p _ => rotlMap_eq_mapCells (hl ▸ h) hr' _ p)
 
 /-- the general statement: `get_unchecked_row_mut` of the implementor returns the row window (C02) -/
 theorem C15_translate (m : Mode) (v : VW) (buf : List α) (h : v.Inv buf.length) (a : Acc) (ha : a.Of v buf.length)
